@@ -86,15 +86,24 @@ func (node HmmNode) Check(n int) bool {
 
 /* -------------------------------------------------------------------------- */
 
-func (node HmmNode) ExportConfig() interface{} {
+func (node HmmNode) exportConfigRec() interface{} {
+  if len(node.Children) == 0 {
+    return node.States
+  }
   r := []interface{}{}
   for i := 0; i < len(node.Children); i++ {
-    r = append(r, node.Children[i].ExportConfig().([]interface{})...)
-  }
-  if len(node.Children) == 0 {
-    r = append(r, node.States)
+    r = append(r, node.Children[i].exportConfigRec())
   }
   return r
+}
+
+// A leaf is exported as the pair [from, to], an internal node as the
+// list of its children (the root is always a list)
+func (node HmmNode) ExportConfig() interface{} {
+  if len(node.Children) == 0 {
+    return []interface{}{node.States}
+  }
+  return node.exportConfigRec()
 }
 
 func (node *HmmNode) ImportConfig(v interface{}) bool {
@@ -115,6 +124,11 @@ func (node *HmmNode) ImportConfig(v interface{}) bool {
           return false
         }
         node.Children = append(node.Children, child)
+      }
+      // an internal node spans the states of its children
+      if n := len(node.Children); n > 0 {
+        node.States[0] = node.Children[0  ].States[0]
+        node.States[1] = node.Children[n-1].States[1]
       }
     }
     return true
